@@ -88,6 +88,29 @@ PROPS = {
             {"run": "^TestC08$", "quick": 300, "thorough": 800},
         ],
     },
+    "C09": {
+        "level": "exploration",
+        "assumptions": [
+            "histories run over the real generic Encoder[T] with the catalogue's compile-time types",
+            "record sizes are taken from the reference decoder's positions in each emitted block's payload",
+        ],
+        "units": [
+            regress("C09"),
+            {"run": "^TestC09$", "quick": 3000, "thorough": 20000},
+        ],
+    },
+    "C16": {
+        "level": "fault_enumeration",
+        "assumptions": [
+            "map-free record types, so that the fault-free run and the faulty run produce identical payload bytes",
+            "every write index of each generated history is a fault point (exhaustive per history); histories are sampled",
+            "the random sync marker is read from the faulty run's own header, never predicted",
+        ],
+        "units": [
+            regress("C16"),
+            {"run": "^TestC16$", "quick": 800, "thorough": 6000},
+        ],
+    },
     "C13": {
         "level": "exploration",
         "assumptions": [
